@@ -9,6 +9,7 @@ import numpy as np
 import pandas as pd
 import subprocess
 import multiprocessing
+from fractions import Fraction
 from pathlib import Path
 from collections import namedtuple
 from eudoxia.simulator import run_simulator, parse_args_with_defaults
@@ -59,7 +60,9 @@ def snap_command(input_workload, output_file, ticks_per_second, force=False):
         for row in reader:
             # Modify arrival_seconds if it's set (not empty)
             if row['arrival_seconds'].strip():
-                original = float(row['arrival_seconds'])
+                # exact decimal arithmetic: float multiplication can land just
+                # below a tick boundary and move an on-grid time down a whole tick
+                original = Fraction(row['arrival_seconds'].strip())
                 snapped = math.floor(original * ticks_per_second) / ticks_per_second
                 row['arrival_seconds'] = snapped
 
